@@ -152,16 +152,71 @@ proof fn lemma_a1_small_range(s: Seq<u8>, nl: int)
         num < 16384 ==> r is Ok && all_upper(r->Ok_0@) && b26(r->Ok_0@) == num + 1 && 1 <= r->Ok_0@.len() <= 3,
 //@@ end
 
-// ---------------------------------------------------------------- coordinate_to_name: to_string/into_bytes/concat are outside vstd
-//@@ fn src/xlsx/mod.rs coordinate_to_name props=C15 ret=r external_body by=coordinate_to_name_rows,coordinate_to_name_cols
+// ---------------------------------------------------------------- coordinate_to_name: real body under Verus
+// Trusted here (std, documented): `u64::to_string` renders decimal digits without leading zeros (`dec_digits`, a constructive spec;
+// vstd's own to_string contract exposes `to_string_from_display_ensures`), `String::into_bytes` of an ASCII string is its chars as
+// bytes, `[a, b].concat()` is `a ++ b`.  The Kani harnesses kani/xlsxf/coordinate_to_name_* stay as bounded regression checks.
+pub open spec fn dec_digits(n: nat) -> Seq<u8>
+    decreases n
+{
+    if n < 10 { seq![(0x30 + n) as u8] } else { dec_digits(n / 10).push((0x30 + n % 10) as u8) }
+}
+proof fn lemma_dec_digits(n: nat)
+    ensures all_digits(dec_digits(n)), dec10(dec_digits(n)) == n, dec_digits(n).len() >= 1, n >= 1 ==> dec_digits(n)[0] != 0x30,
+    decreases n,
+{
+    if n < 10 {
+        let s = dec_digits(n);
+        assert(s.len() == 1 && s[0] == (0x30 + n) as u8);
+        assert(s.drop_last() =~= Seq::<u8>::empty());
+        assert(dec10(s.drop_last()) == 0);
+    } else {
+        lemma_dec_digits(n / 10);
+        let t = dec_digits(n / 10);
+        let s = dec_digits(n);
+        assert(s == t.push((0x30 + n % 10) as u8));
+        assert(s.drop_last() =~= t);
+        assert(s.last() == (0x30 + n % 10) as u8);
+        assert(s[0] == t[0]);
+        assert(n == (n / 10) * 10 + n % 10);
+    }
+}
+pub broadcast axiom fn axiom_display_u64(x: &u64, r: String)
+    ensures #[trigger] vstd::string::to_string_from_display_ensures::<u64>(x, r) ==>
+        (forall|i: int| 0 <= i < r@.len() ==> (r@[i] as u32) < 0x80)
+        && Seq::new(r@.len(), |i: int| r@[i] as u8) == dec_digits(*x as nat);
+pub assume_specification[ String::into_bytes ](s: String) -> (r: Vec<u8>)
+    ensures (forall|i: int| 0 <= i < s@.len() ==> (s@[i] as u32) < 0x80) ==> r@ == Seq::new(s@.len(), |i: int| s@[i] as u8);
+#[verifier::external_trait_specification]
+pub trait ExConcat<Item: ?Sized> { type ExternalTraitSpecificationFor: std::slice::Concat<Item>; type Output; }
+pub uninterp spec fn concat_of<T, Item: ?Sized>(s: &[T]) -> <[T] as std::slice::Concat<Item>>::Output where [T]: std::slice::Concat<Item>;
+pub assume_specification<T, Item: ?Sized>[ <[T]>::concat::<Item> ](s: &[T]) -> (r: <[T] as std::slice::Concat<Item>>::Output)
+    where [T]: std::slice::Concat<Item>
+    ensures r == concat_of::<T, Item>(s);
+pub broadcast axiom fn axiom_concat2(s: &[Vec<u8>])
+    ensures s@.len() == 2 ==> (#[trigger] concat_of::<Vec<u8>, u8>(s))@ == s@[0]@ + s@[1]@;
+
+//@@ fn src/xlsx/mod.rs coordinate_to_name props=C15 ret=r
 //@@ sig
-    // TRUSTED: discharged only up to the bounds of the Kani harnesses kani/xlsxf (row < 100 x col = 27; every col < 16384 x row = 7;
-    // no panic for the rows next to u32::MAX: kani/xlsxf/coordinate_to_name_total).  No precondition: `cell.0 as u64 + 1` cannot overflow.
+    // No precondition: `cell.0 as u64 + 1` cannot overflow (discharged as an implicit obligation).
     ensures
         //# C15.name_err_iff_col_out_of_range
         cell.1 >= 16384 <==> r is Err,
         //# C15.name_is_letters_then_decimal
         cell.1 < 16384 ==> r is Ok && is_name_of(r->Ok_0@, cell.0 as int, cell.1 as int),
+//@@ body
+    broadcast use axiom_display_u64, axiom_concat2;
+    let ghost rc = cell;
+//@@ before /Ok\(cell\.concat/
+    proof {
+        let a = cell@[0]@; let d = cell@[1]@;
+        lemma_dec_digits(rc.0 as nat + 1);
+        assert(d == dec_digits(rc.0 as nat + 1));
+        assert((a + d).subrange(0, a.len() as int) =~= a);
+        assert((a + d).subrange(a.len() as int, (a + d).len() as int) =~= d);
+        assert((a + d)[a.len() as int] == d[0]);
+        assert(name_of(a + d, a.len() as int, rc.0 as int, rc.1 as int));
+    }
 //@@ end
 
 // ---------------------------------------------------------------- std behaviour outside vstd
